@@ -30,6 +30,7 @@ func runC04(c *Check) {
 	c04PublishCopies(c, "C04", r)
 	c04Register(c, "C04", r)
 	c11PublishSection(c, "C04.O6", r)
+	c07TeardownOrder(c, "C04.O6", r)
 	c16Copy(c, "C04.O7")
 	c16Metadata(c, "C04.O7")
 	c04NoMessageWrites(c, "C04.O7", r)
